@@ -27,10 +27,12 @@ var c10Alphabet = []argTok{
 	{`"hi"`, "S_Text_0", 4}, {"moves(u d)", "S_Movement_0", 4},
 }
 
-var c10Names = []string{"foo", "é_cmd", "iff", "endx", "msgbox"}
+var c10Names = []string{"foo", "é_cmd", "iff", "endx", "msgbox", "END", "Return", "RETURN", "End", "Goto", "CALL"} // incl. case variants of the names the compiler itself treats specially
 
 // c10Valid: balanced parentheses (depth <= 2 inside the list), no empty
 // argument, inline data only as a whole argument.
+const c10Contexts = 10
+
 func c10Valid(seq []argTok) bool {
 	depth := 0
 	argLen := 0
@@ -151,82 +153,104 @@ func runC10(tier string) int {
 			}
 			// context variants: rotate by index so that every sequence sees one of each family over the run;
 			// all contexts for short sequences.
-			ctxs := []int{int(idx % 7)}
+			ctxs := []int{int(idx % c10Contexts)}
 			if L <= 2 {
-				ctxs = []int{0, 1, 2, 3, 4, 5, 6}
+				ctxs = ctxs[:0]
+				for c := 0; c < c10Contexts; c++ {
+					ctxs = append(ctxs, c)
+				}
+			}
+			// every command name for the shortest argument lists, one (rotating) name beyond
+			nameIdx := []int{0}
+			if L <= 1 {
+				nameIdx = nameIdx[:0]
+				for n := range c10Names {
+					nameIdx = append(nameIdx, n)
+				}
 			}
 			for _, ctx := range ctxs {
-				name := c10Names[(int(idx)+ctx)%len(c10Names)]
-				csrc, cout := c10Render(name, seq)
-				var src string
-				var want []string
-				switch ctx {
-				case 0: // alone
-					src = "script S {\n\t" + csrc + "\n}\n"
-					want = []string{"S::", "\t" + cout, "\treturn"}
-				case 1: // middle of a stretch
-					src = "script S {\n\tpre\n\t" + csrc + "\n\tpost(x, y)\n}\n"
-					want = []string{"S::", "\tpre", "\t" + cout, "\tpost x, y", "\treturn"}
-				case 2: // twice in a row, then end
-					src = "script S {\n\t" + csrc + "\n\t" + csrc + "\n\tend\n}\n"
-					want = []string{"S::", "\t" + cout, "\t" + cout, "\tend"}
-				case 3: // all on one line
-					src = "script S { pre " + csrc + " post }\n"
-					want = []string{"S::", "\tpre", "\t" + cout, "\tpost", "\treturn"}
-				case 5: // inside the '_' case of a poryswitch that is selected because nothing matches
-					src = "script S {\n\tporyswitch(PV) {\n\t\tNOPE: other\n\t\t_ {\n\t\t\tpre\n\t\t\t" + csrc + "\n\t\t\tpost\n\t\t}\n\t}\n}\n"
-					want = []string{"\tpre", "\t" + cout, "\tpost"}
-				case 6: // inside a directly selected colon case, after another command
-					src = "script S {\n\tpre\n\tporyswitch(PV) {\n\t\tSEL: " + csrc + "\n\t\t_: other\n\t}\n\tpost\n}\n"
-					want = []string{"\tpre", "\t" + cout, "\tpost"}
-				default: // inside an if body (optimize: body chunk follows)
-					src = "script S {\n\tif (flag(F)) {\n\t\tpre\n\t\t" + csrc + "\n\t\tpost\n\t}\n}\n"
-					want = []string{"\tpre", "\t" + cout, "\tpost"}
-				}
-				src = "const K = 5\nconst K2 = 1 + 2\n" + src
-				res := comp.Compile(src, comp.Opts{Optimize: true, Switches: map[string]string{"PV": "SEL"}})
-				r.Add("evaluations", 1)
-				if nargs >= 2 && hasParen {
-					r.Add("nontrivial", 1)
-				}
-				if res.Panic != "" || res.Err != nil {
-					r.Report(harness.Violation{Sig: "C10:rejected:" + firstWords(fmt.Sprint(res.Err), 5), Summary: fmt.Sprintf("command rejected: %v %s\n  source: %q", res.Err, firstLine(res.Panic), src), Replay: map[string]interface{}{"source": src}})
-					continue
-				}
-				// The script block is everything before the hoisted data.
-				got := nonBlank(strings.Split(res.Out, "\n"))
-				if ctx >= 4 {
-					// inside an if body only the straight-line stretch is compared (chunk labels and jumps are C01's business)
-					got = stretchOf(got, "\tpre", len(want))
-				}
-				wantAll := append([]string{}, want...)
-				if hasMoves && ctx < 4 {
-					wantAll = append(wantAll, "", "S_Movement_0:", "\tu", "\td", "\tstep_end")
-				}
-				if hasText && ctx < 4 {
-					wantAll = append(wantAll, "", "S_Text_0:", "\t.string \"hi$\"")
-				}
-				if ctx >= 4 {
-					if hasText && !strings.Contains(res.Out, "S_Text_0:\n\t.string \"hi$\"") {
-						wantAll = append(wantAll, "<missing: S_Text_0 with .string \"hi$\">")
+				for _, ni := range nameIdx {
+					name := c10Names[(int(idx)+ctx+ni)%len(c10Names)]
+					csrc, cout := c10Render(name, seq)
+					var src string
+					var want []string
+					switch ctx {
+					case 0: // alone
+						src = "script S {\n\t" + csrc + "\n}\n"
+						want = []string{"S::", "\t" + cout, "\treturn"}
+					case 1: // middle of a stretch
+						src = "script S {\n\tpre\n\t" + csrc + "\n\tpost(x, y)\n}\n"
+						want = []string{"S::", "\tpre", "\t" + cout, "\tpost x, y", "\treturn"}
+					case 2: // twice in a row, then end
+						src = "script S {\n\t" + csrc + "\n\t" + csrc + "\n\tend\n}\n"
+						want = []string{"S::", "\t" + cout, "\t" + cout, "\tend"}
+					case 3: // all on one line
+						src = "script S { pre " + csrc + " post }\n"
+						want = []string{"S::", "\tpre", "\t" + cout, "\tpost", "\treturn"}
+					case 5: // inside the '_' case of a poryswitch that is selected because nothing matches
+						src = "script S {\n\tporyswitch(PV) {\n\t\tNOPE: other\n\t\t_ {\n\t\t\tpre\n\t\t\t" + csrc + "\n\t\t\tpost\n\t\t}\n\t}\n}\n"
+						want = []string{"\tpre", "\t" + cout, "\tpost"}
+					case 6: // inside a directly selected colon case, after another command
+						src = "script S {\n\tpre\n\tporyswitch(PV) {\n\t\tSEL: " + csrc + "\n\t\t_: other\n\t}\n\tpost\n}\n"
+						want = []string{"\tpre", "\t" + cout, "\tpost"}
+					case 7: // last command of an if body that other statements follow
+						src = "script S {\n\tif (flag(F)) {\n\t\tpre\n\t\t" + csrc + "\n\t}\n\tpost\n}\n"
+						want = []string{"\tpre", "\t" + cout}
+					case 8: // last command of a loop body
+						src = "script S {\n\twhile (flag(F)) {\n\t\tpre\n\t\t" + csrc + "\n\t}\n}\n"
+						want = []string{"\tpre", "\t" + cout}
+					case 9: // last command of a switch case
+						src = "script S {\n\tswitch (var(V)) {\n\t\tcase 1:\n\t\t\tpre\n\t\t\t" + csrc + "\n\t\tcase 2:\n\t\t\tpost\n\t}\n}\n"
+						want = []string{"\tpre", "\t" + cout}
+					default: // inside an if body (optimize: body chunk follows)
+						src = "script S {\n\tif (flag(F)) {\n\t\tpre\n\t\t" + csrc + "\n\t\tpost\n\t}\n}\n"
+						want = []string{"\tpre", "\t" + cout, "\tpost"}
 					}
-					if hasMoves && !strings.Contains(res.Out, "S_Movement_0:\n\tu\n\td\n\tstep_end") {
-						wantAll = append(wantAll, "<missing: S_Movement_0 with u d step_end>")
+					src = "const K = 5\nconst K2 = 1 + 2\n" + src
+					res := comp.Compile(src, comp.Opts{Optimize: true, Switches: map[string]string{"PV": "SEL"}})
+					r.Add("evaluations", 1)
+					if nargs >= 2 && hasParen {
+						r.Add("nontrivial", 1)
 					}
-				}
-				wantAll = nonBlank(wantAll)
-				if strings.Join(got, "\n") != strings.Join(wantAll, "\n") {
-					s2 := src
-					r.Report(harness.Violation{
-						Sig:     fmt.Sprintf("C10:ctx%d:differs", ctx),
-						Summary: fmt.Sprintf("command %q ctx=%d:\n  emitted %q\n  want    %q", csrc, ctx, res.Out, strings.Join(wantAll, "\n")),
-						Replay:  map[string]interface{}{"source": src, "want": strings.Join(wantAll, "\n"), "output": res.Out},
-						Recheck: func() bool {
-							return comp.Compile(s2, comp.Opts{Optimize: true, Switches: map[string]string{"PV": "SEL"}}).Out == res.Out
-						},
-					})
-				} else if r.WantSample() && nargs >= 3 && hasParen {
-					r.Sample(map[string]interface{}{"command": csrc, "emitted_line": cout, "context": ctx})
+					if res.Panic != "" || res.Err != nil {
+						r.Report(harness.Violation{Sig: "C10:rejected:" + firstWords(fmt.Sprint(res.Err), 5), Summary: fmt.Sprintf("command rejected: %v %s\n  source: %q", res.Err, firstLine(res.Panic), src), Replay: map[string]interface{}{"source": src}})
+						continue
+					}
+					// The script block is everything before the hoisted data.
+					got := nonBlank(strings.Split(res.Out, "\n"))
+					if ctx >= 4 {
+						// inside an if body only the straight-line stretch is compared (chunk labels and jumps are C01's business)
+						got = stretchOf(got, "\tpre", len(want))
+					}
+					wantAll := append([]string{}, want...)
+					if hasMoves && ctx < 4 {
+						wantAll = append(wantAll, "", "S_Movement_0:", "\tu", "\td", "\tstep_end")
+					}
+					if hasText && ctx < 4 {
+						wantAll = append(wantAll, "", "S_Text_0:", "\t.string \"hi$\"")
+					}
+					if ctx >= 4 {
+						if hasText && !strings.Contains(res.Out, "S_Text_0:\n\t.string \"hi$\"") {
+							wantAll = append(wantAll, "<missing: S_Text_0 with .string \"hi$\">")
+						}
+						if hasMoves && !strings.Contains(res.Out, "S_Movement_0:\n\tu\n\td\n\tstep_end") {
+							wantAll = append(wantAll, "<missing: S_Movement_0 with u d step_end>")
+						}
+					}
+					wantAll = nonBlank(wantAll)
+					if strings.Join(got, "\n") != strings.Join(wantAll, "\n") {
+						s2 := src
+						r.Report(harness.Violation{
+							Sig:     fmt.Sprintf("C10:ctx%d:differs", ctx),
+							Summary: fmt.Sprintf("command %q ctx=%d:\n  emitted %q\n  want    %q", csrc, ctx, res.Out, strings.Join(wantAll, "\n")),
+							Replay:  map[string]interface{}{"source": src, "want": strings.Join(wantAll, "\n"), "output": res.Out},
+							Recheck: func() bool {
+								return comp.Compile(s2, comp.Opts{Optimize: true, Switches: map[string]string{"PV": "SEL"}}).Out == res.Out
+							},
+						})
+					} else if r.WantSample() && nargs >= 3 && hasParen {
+						r.Sample(map[string]interface{}{"command": csrc, "emitted_line": cout, "context": ctx})
+					}
 				}
 			}
 		})
@@ -242,5 +266,5 @@ func runC10(tier string) int {
 	r.Assume("expected line = name, then the source tokens joined by single spaces with no space before a comma; constants replaced by their value; an inline text / moves() that is a whole argument replaced by its label",
 		"no empty arguments, inline data only as whole arguments, parentheses balanced to depth 2 (the property's domain)")
 	return r.Finish(r.Get("evaluations"), r.Get("nontrivial"),
-		"every argument token sequence of length <= L over a 24-token alphabet (identifiers incl. multi-byte, keywords, decimal/negative/hex numbers, operators, an illegal character, parentheses, comma, two constants, inline text, moves()) that is in the domain, with 5 command names, in 7 contexts (alone, middle of a stretch, twice in a row, all on one line, inside an if body, inside a poryswitch case selected through _ / directly); the whole emitted file is compared byte for byte with the generator's expectation; non-trivial = >= 2 arguments and nested parentheses")
+		"every argument token sequence of length <= L over a 24-token alphabet (identifiers incl. multi-byte, keywords, decimal/negative/hex numbers, operators, an illegal character, parentheses, comma, two constants, inline text, moves()) that is in the domain, with 11 command names incl. case variants of end / return / goto / call (all names for <= 1 token, rotating beyond), in 10 contexts (alone, middle of a stretch, twice in a row, all on one line, inside an if body, inside a poryswitch case selected through _ / directly, last command of an if body / loop body / switch case); the whole emitted file is compared byte for byte with the generator's expectation; non-trivial = >= 2 arguments and nested parentheses")
 }
